@@ -5,12 +5,16 @@ package c04
 import (
 	"bytes"
 	"encoding/json"
+	"errors"
 	"fmt"
 	"io"
 	"math/rand"
 	"net/http"
 	"net/http/httptest"
+	"net/url"
+	"os"
 	"sort"
+	"strconv"
 	"strings"
 	"sync"
 	"time"
@@ -37,14 +41,19 @@ func init() {
 			"served by Context.APIHandler on a real loopback httptest.Server and called through client.Runtime.Submit with hostile values (reserved URL bytes '/', '%', '+', ' ', '?', '#', ':', '*', '{', '}', ';', '=', '&', non-ASCII, NUL, boundary integers, repeated values, files of 0..70000 bytes). " +
 			"Request side also: octet-stream bodies handed over as io.ReadCloser, multipart operations called without their (optional) file or with two file parameters, a file sent although the first consumes entry is urlencoded, empty items in multi arrays, DELETE with a JSON body, path values spelling another parameter's placeholder, file names holding tab, no-break/zero-width spaces, U+2028, U+FEFF, quotes, backslashes and bytes that are not UTF-8, header and form parameters left out in 1 call in 5. " +
 			"Response side: the handler answers through a Responder with a status in {declared success code, 200,201,202,204,300,304,400,401,403,404,409,422,429,500,503}, an echo header, a two-valued header, optionally an explicit Content-Type (parameters, upper case), and a json/text/octet-stream body of 0 bytes..1 MiB, optionally flushing the head and writing the body only once the caller's reader has been entered (a logical event, no timing); or returns an error carrying a 4xx/5xx code (status judged only). " +
-			"Oracle: equality of every received value with the supplied one (a declared query/header/form parameter the call left out must arrive as the zero value), of the operation that ran, and of status/headers/body seen by the response reader with what the handler wrote (body read to EOF without error; status and headers only for HEAD operations). non-trivial = a call with >= 1 value containing a byte that needs escaping in its location; distinct by (operation shape, value tuple)",
+			"Round 3: query and form parameter names that need escaping ($filter, page[size], 'a b', ...); values ending in a space, a reserved byte or a line break; templates and a base path ending in '/', literal segments with reserved bytes; static query parameters written into the operation's path pattern or into the transport's base path, each such call followed by a call (1 in 2 on a new Runtime) to an operation declaring the name whose caller leaves it out (it must receive none); readers that hand the live body to the consumer; answers labelled with a media type the client has no consumer for (the call must fail naming the content type without entering the reader, as C13 states; with a catch-all consumer the answer must arrive intact); values that cannot be sent (unmarshallable body, media type without producer, a directory as upload: the call fails and no handler runs; a stream whose Close fails). " +
+		"Every call runs on a transport of its case; a dial/reset/deadline/closed-connection error of the loopback plumbing is counted (env:*), the call is repeated once on a fresh server and only what shows again is judged; running out of descriptors/ports is never judged. " +
+		"Oracle: equality of every received value with the supplied one (a declared query/header/form parameter the call left out must arrive as the zero value), of the operation that ran, and of status/headers/body seen by the response reader with what the handler wrote (body read to EOF without error; status and headers only for HEAD operations). non-trivial = a call with >= 1 value containing a byte that needs escaping in its location; distinct by (operation shape, value tuple)",
 		Assumptions: []string{
 			"path values that are empty or dot segments are not generated (outside the guarantee: paths are normalised by design)",
 			"header values are restricted to what HTTP can carry (no CR/LF/NUL/other controls, no leading/trailing whitespace)",
 			"JSON body strings are valid UTF-8 (JSON cannot carry other bytes); form file names are sent by base name and hold no CR/LF/NUL/DEL (Go's MIME header reader refuses a part header with DEL: protocol, not this code)",
 			"the Content-Type of a 304 answer is not judged (net/http strips it); a 304 answer carries no body",
 			"octet-stream request bodies have >= 1 byte (an empty stream is indistinguishable from an absent body); a 204 answer carries no body (HTTP)",
-			"when the handler returns an error value only the status reaching the reader is judged (the error document is written by the API's error responder: C08); the Content-Type seen by the reader is judged only when the handler set it itself (otherwise it is the negotiated one: C07/C08)",
+			"a query parameter the caller does not set has the value written into the path pattern, else the one written into the base path; when both carry it either value is accepted (the statement does not rank the two); a value the caller sets wins over both",
+		"literal template segments hold only bytes a URL path carries unescaped (space, non-ASCII, '|', '\"' in a literal are not generated: no still-encoded request path spells such a literal, see escapedLiteralTemplates) and neither ':' nor '*' (router meta bytes: C01/C05)",
+		"an answer labelled with a media type the client has no consumer for, and no catch-all consumer: the call fails with an error naming the content type and the reader is not entered (stated by C13; ruled not a C04 defect)",
+		"when the handler returns an error value only the status reaching the reader is judged (the error document is written by the API's error responder: C08); the Content-Type seen by the reader is judged only when the handler set it itself (otherwise it is the negotiated one: C07/C08)",
 		},
 		MinNontrivial: 200,
 		Run:           run,
@@ -80,6 +89,12 @@ type Call struct {
 	RespFlush  bool   `json:"respFlush,omitempty"` // the handler flushes the head and writes the body once the caller's reader has been entered
 	RespKind   string `json:"respKind,omitempty"`  // "" = a Responder writes the answer | "error" = the handler returns an error carrying RespCode
 	RespCT     mon.Q  `json:"respCT,omitempty"`    // Content-Type set by the handler itself ("" = left to the middleware)
+	// round 3
+	PinQuery     map[string][]mon.Q `json:"pinQuery,omitempty"`     // static query parameters written into the client's path pattern ("/r0/{p0}?q0=full")
+	FreshRuntime bool               `json:"freshRuntime,omitempty"` // the call is made on a new client.Runtime (same host and base path)
+	AnyConsumer  bool               `json:"anyConsumer,omitempty"`  // the Runtime has a catch-all ("*/*") consumer for this call
+	LiveBody     bool               `json:"liveBody,omitempty"`     // the reader hands the live response body to the consumer (as generated readers do)
+	PreSend      string             `json:"preSend,omitempty"`      // a value that cannot be sent: "unproducible-body" | "no-producer" | "directory-file" | "body-close-error"
 }
 
 // Case is a description plus calls.
@@ -87,6 +102,8 @@ type Case struct {
 	Desc  gen.Desc `json:"desc"`
 	Auth  bool     `json:"auth,omitempty"`
 	Calls []Call   `json:"calls"`
+	// BaseQuery: static query parameters written into the base path the client transport is configured with ("/api?q0=17")
+	BaseQuery map[string]mon.Q `json:"baseQuery,omitempty"`
 }
 
 type received struct {
@@ -104,6 +121,9 @@ type sut struct {
 	got  *received
 	next *Call
 	rtm  *client.Runtime
+	tr   *http.Transport // the case's own transport: no connection is shared with another case or another process-wide user
+	host string
+	base string // the base path the client is configured with (the description's, plus the static query of the case)
 	// gate is closed when the caller's response reader is entered (or Submit has returned); done when the Responder has finished
 	gate     chan struct{}
 	gateOnce *sync.Once
@@ -278,9 +298,62 @@ func build(c *Case) (*sut, error) {
 		}))
 	}
 	ctx := middleware.NewContext(doc, api, nil)
-	s.srv = httptest.NewServer(ctx.APIHandler(nil))
-	s.rtm = client.New(strings.TrimPrefix(s.srv.URL, "http://"), c.Desc.BasePath, []string{"http"})
+	ln, err := listenLoopback()
+	if err != nil {
+		return nil, err
+	}
+	// not httptest.NewServer: it panics when it cannot listen
+	s.srv = &httptest.Server{Listener: ln, Config: &http.Server{Handler: ctx.APIHandler(nil)}}
+	s.srv.Start()
+	s.host = strings.TrimPrefix(s.srv.URL, "http://")
+	s.base = c.Desc.BasePath + staticQuery(c.BaseQuery)
+	s.tr = &http.Transport{MaxIdleConnsPerHost: 2, IdleConnTimeout: 30 * time.Second}
+	s.rtm = s.newRuntime()
 	return s, nil
+}
+
+// newRuntime is a client transport for the case's server: the case's own http.Transport, debug dumps off whatever the
+// environment variables of the machine say.
+func (s *sut) newRuntime() *client.Runtime {
+	rtm := client.New(s.host, s.base, []string{"http"})
+	rtm.Transport = s.tr
+	rtm.Debug = false
+	return rtm
+}
+
+func (s *sut) close() {
+	s.tr.CloseIdleConnections()
+	s.srv.Close()
+}
+
+// staticQuery spells static query parameters the way they are written into a base path ("?a=1&b=2"; "" for none).
+func staticQuery(q map[string]mon.Q) string {
+	if len(q) == 0 {
+		return ""
+	}
+	l := map[string][]mon.Q{}
+	for k, v := range q {
+		l[k] = []mon.Q{v}
+	}
+	return staticQueryList(l)
+}
+
+func staticQueryList(q map[string][]mon.Q) string {
+	if len(q) == 0 {
+		return ""
+	}
+	names := make([]string, 0, len(q))
+	for k := range q {
+		names = append(names, k)
+	}
+	sort.Strings(names)
+	var parts []string
+	for _, k := range names {
+		for _, v := range q[k] {
+			parts = append(parts, url.QueryEscape(k)+"="+url.QueryEscape(string(v)))
+		}
+	}
+	return "?" + strings.Join(parts, "&")
 }
 
 type upFile struct {
@@ -299,15 +372,44 @@ func (s *seekFile) Seek(off int64, whence int) (int64, error) { return s.r.Seek(
 
 type seen struct {
 	code    int
+	msg     string
 	echo    string
 	multi   []string
 	ct      string
 	cts     []string
 	body    []byte
+	live    bool // the consumer read the live body: body holds nothing
 	readErr error
 	consErr error
 	value   interface{}
 	ran     int
+}
+
+// media types the client transport has a consumer for when it is created (client.New)
+var clientConsumes = map[string]bool{"application/x-yaml": true, "application/json": true, "application/xml": true, "text/plain": true,
+	"text/html": true, "text/csv": true, octetMime: true}
+
+// well-formed response media types the client transport has no consumer for
+var alienTypes = []string{"application/problem+json", "application/vnd.c04.v1+json", "image/png", "bogus", "Application/Problem+JSON; charset=utf-8", "text/x-c04; format=flowed"}
+
+// mediaTypeOf is the media type of a Content-Type value without its parameters, in lower case.
+func mediaTypeOf(ct string) string {
+	if i := strings.IndexByte(ct, ';'); i >= 0 {
+		ct = ct[:i]
+	}
+	return strings.ToLower(strings.TrimSpace(ct))
+}
+
+// alienAnswer: the handler labels its answer with a media type the client has no consumer for.
+func alienAnswer(call *Call) bool {
+	return call.RespCT != "" && call.RespKind != "error" && !clientConsumes[mediaTypeOf(string(call.RespCT))]
+}
+
+// expectNoConsumer: the answer reaches the client labelled with a media type it has no consumer for, and there is no catch-all
+// consumer: the call fails with an error naming the content type and the reader is not entered (property C13 states this
+// outcome; ruled not to be a defect for C04). A 304 answer does not carry the label (net/http strips it).
+func expectNoConsumer(call *Call, op *gen.Op) bool {
+	return alienAnswer(call) && !call.AnyConsumer && respCode(call, op) != http.StatusNotModified
 }
 
 // respFeature names what is special about the scripted answer ("" for the plain small 2xx answers).
@@ -337,146 +439,293 @@ func respFeature(call *Call, op *gen.Op) string {
 	if producesOctet(op) {
 		fs = append(fs, "octet-stream")
 	}
+	if alienAnswer(call) {
+		if call.AnyConsumer {
+			fs = append(fs, "media-type-for-the-catch-all-consumer")
+		} else {
+			fs = append(fs, "media-type-without-consumer")
+		}
+	}
+	if call.LiveBody {
+		fs = append(fs, "live-body")
+	}
 	return strings.Join(fs, "+")
+}
+
+// catchAll is the "*/*" consumer of the calls that have one: it hands over the bytes.
+var catchAll = rt.ConsumerFunc(func(r io.Reader, v interface{}) error {
+	b, err := io.ReadAll(r)
+	if err != nil {
+		return err
+	}
+	switch t := v.(type) {
+	case *string:
+		*t = string(b)
+	case *bytes.Buffer:
+		t.Write(b)
+	case *[]byte:
+		*t = b
+	default:
+		return fmt.Errorf("c04 catch-all consumer: unexpected target %T", v)
+	}
+	return nil
+})
+
+// unmarshalable is a body value the JSON producer cannot write.
+type unmarshalable struct{}
+
+func (unmarshalable) MarshalJSON() ([]byte, error) {
+	return nil, errors.New("c04: this value cannot be marshalled")
+}
+
+// closeErrBody is a stream body whose Close reports an error after everything has been read.
+type closeErrBody struct{ *bytes.Reader }
+
+func (closeErrBody) Close() error { return errors.New("c04: close failed") }
+
+// obs is what one execution of a call showed.
+type obs struct {
+	pv     interface{}
+	stack  string
+	subErr error
+	got    received
+	sn     *seen
+	edited bool // the media type lists handed to the library came back changed
+}
+
+// env names the plumbing failure the execution ran into ("" = none).
+func (o *obs) env() string {
+	if o.pv != nil {
+		return ""
+	}
+	if k := envKind(o.subErr); k != "" {
+		return k
+	}
+	if k := envKind(o.sn.readErr); k != "" {
+		return k
+	}
+	return envKind(o.sn.consErr)
+}
+
+// exec makes the call on the case's server and records what the handler and the reader saw.
+func (s *sut) exec(c *Case, call *Call, op *gen.Op) *obs {
+	*s.got = received{}
+	s.next = call
+	s.gate, s.gateOnce, s.done = make(chan struct{}), &sync.Once{}, make(chan struct{})
+	sn := &seen{}
+	var dir *os.File
+	params := rt.ClientRequestWriterFunc(func(req rt.ClientRequest, _ strfmt.Registry) error {
+		for k, v := range call.Path {
+			_ = req.SetPathParam(k, string(v))
+		}
+		for k, v := range call.Query {
+			_ = req.SetQueryParam(k, mon.SQ(v)...)
+		}
+		for k, v := range call.Header {
+			_ = req.SetHeaderParam(k, string(v))
+		}
+		for k, items := range call.HeaderArr {
+			sep := ","
+			for _, p := range op.Params {
+				if p.Name == k && p.CollectionFormat == "pipes" {
+					sep = "|"
+				}
+			}
+			_ = req.SetHeaderParam(k, strings.Join(mon.SQ(items), sep))
+		}
+		for k, v := range call.Form {
+			_ = req.SetFormParam(k, mon.SQ(v)...)
+		}
+		if call.File2 != "" {
+			_ = req.SetFileParam("upload2", &upFile{name: call.File2, r: bytes.NewReader(fileContent(call.File2Len))})
+		}
+		if call.RawLen > 0 {
+			if call.PreSend == "body-close-error" {
+				_ = req.SetBodyParam(closeErrBody{bytes.NewReader(fileContent(call.RawLen))})
+			} else {
+				_ = req.SetBodyParam(io.NopCloser(bytes.NewReader(fileContent(call.RawLen))))
+			}
+		}
+		if call.PreSend == "directory-file" {
+			d, err := os.Open(os.TempDir())
+			if err != nil {
+				return err
+			}
+			dir = d
+			// a caller that checks what the setter says: a directory cannot be uploaded
+			if err := req.SetFileParam(fileParamName(op), d); err != nil {
+				return err
+			}
+		}
+		if call.File != "" {
+			if call.FileSkip > 0 {
+				sf := &seekFile{upFile{name: string(call.File), r: bytes.NewReader(fileContent(call.FileLen))}}
+				_, _ = sf.Seek(int64(call.FileSkip), io.SeekStart) // the caller already consumed a local header
+				_ = req.SetFileParam(fileParamName(op), sf)
+			} else {
+				_ = req.SetFileParam(fileParamName(op), &upFile{name: string(call.File), r: bytes.NewReader(fileContent(call.FileLen))})
+			}
+		}
+		if call.Text != "" {
+			_ = req.SetBodyParam(string(call.Text))
+		}
+		if call.Body != nil {
+			b := map[string]string{}
+			for k, v := range call.Body {
+				b[k] = string(v)
+			}
+			switch {
+			case call.PreSend == "unproducible-body":
+				_ = req.SetBodyParam(map[string]interface{}{"s": b["s"], "t": unmarshalable{}})
+			case call.BodyAsReader:
+				txt, _ := json.Marshal(b)
+				_ = req.SetBodyParam(strings.NewReader(string(txt)))
+			default:
+				_ = req.SetBodyParam(b)
+			}
+		}
+		return nil
+	})
+	var auth rt.ClientAuthInfoWriter
+	if c.Auth {
+		auth = client.APIKeyAuth("X-Api-Key", "header", string(call.Key))
+	}
+	if call.Signer {
+		inner := auth
+		auth = rt.ClientAuthInfoWriterFunc(func(req rt.ClientRequest, reg strfmt.Registry) error {
+			_ = req.GetBody() // a signer looks at what will be sent
+			// ... and canonicalises its own copy of the query (GetQueryParams documents a copy)
+			q := req.GetQueryParams()
+			for k := range q {
+				sort.Strings(q[k])
+				for i := range q[k] {
+					q[k][i] = strings.ToLower(q[k][i])
+				}
+			}
+			q.Set("x-signer-scratch", "1")
+			if inner != nil {
+				return inner.AuthenticateRequest(req, reg)
+			}
+			return nil
+		})
+	}
+	alien := alienAnswer(call)
+	reader := rt.ClientResponseReaderFunc(func(resp rt.ClientResponse, cons rt.Consumer) (interface{}, error) {
+		sn.ran++
+		s.openGate() // the caller's reader has been entered: a handler that flushed its head writes the body now
+		sn.code = resp.Code()
+		sn.msg = resp.Message()
+		sn.echo = resp.GetHeader("X-Echo")
+		sn.multi = resp.GetHeaders("X-Multi")
+		sn.ct = resp.GetHeader("Content-Type")
+		sn.cts = append([]string(nil), resp.GetHeaders("Content-Type")...)
+		decode := !(call.RespKind == "error" || bodyless(sn.code) || op.Method == "HEAD")
+		if decode && call.LiveBody && !alien {
+			// the way generated readers do it: the consumer reads the live body
+			sn.live = true
+			switch {
+			case producesText(op):
+				var str string
+				sn.consErr = cons.Consume(resp.Body(), &str)
+				sn.value = str
+			case producesOctet(op):
+				var buf bytes.Buffer
+				sn.consErr = cons.Consume(resp.Body(), &buf)
+				sn.value = buf.String()
+			default:
+				var mv map[string]string
+				sn.consErr = cons.Consume(resp.Body(), &mv)
+				sn.value = mv["t"]
+			}
+			return nil, nil
+		}
+		b, rerr := io.ReadAll(resp.Body())
+		sn.body, sn.readErr = b, rerr
+		switch {
+		case !decode || rerr != nil:
+			// nothing to decode (error document of the API's error responder / no body / body lost)
+		case alien:
+			// a media type of the handler's own: the bytes are what the operation's producer wrote, whatever consumer was handed over
+			if producesText(op) || producesOctet(op) {
+				sn.value = string(b)
+			} else {
+				var mv map[string]string
+				sn.consErr = json.Unmarshal(b, &mv)
+				sn.value = mv["t"]
+			}
+		case producesText(op):
+			var str string
+			sn.consErr = cons.Consume(bytes.NewReader(b), &str)
+			sn.value = str
+		case producesOctet(op):
+			var buf bytes.Buffer
+			sn.consErr = cons.Consume(bytes.NewReader(b), &buf)
+			sn.value = buf.String()
+		default:
+			var mv map[string]string
+			sn.consErr = cons.Consume(bytes.NewReader(b), &mv)
+			sn.value = mv["t"]
+		}
+		return nil, nil
+	})
+	consumes := op.Consumes
+	if call.BodyType != "" {
+		consumes = []string{call.BodyType}
+	}
+	if call.PreSend == "no-producer" {
+		consumes = []string{"application/vnd.c04.unregistered+json"}
+	}
+	// the library gets lists of its own: what it does to them cannot reach the description the oracle reads
+	consArg, prodArg := append([]string(nil), consumes...), append([]string(nil), op.Produces...)
+	cop := &rt.ClientOperation{ID: op.ID, Method: op.Method, PathPattern: op.Template + staticQueryList(call.PinQuery), ConsumesMediaTypes: consArg, ProducesMediaTypes: prodArg,
+		Params: params, Reader: reader, AuthInfo: auth}
+	rtm := s.rtm
+	if call.FreshRuntime {
+		rtm = s.newRuntime()
+	}
+	if call.AnyConsumer {
+		rtm.Consumers["*/*"] = catchAll
+	} else {
+		delete(rtm.Consumers, "*/*")
+	}
+	o := &obs{sn: sn}
+	o.pv, o.stack = mon.Catch(func() { _, o.subErr = rtm.Submit(cop) })
+	s.openGate() // never leave a handler waiting
+	if s.got.ran > 0 {
+		select { // the Responder finishes before its observations are read and before the next call is scripted
+		case <-s.done:
+		case <-time.After(gateTimeout):
+		}
+	}
+	if dir != nil {
+		_ = dir.Close()
+	}
+	o.got = *s.got
+	o.edited = strings.Join(consArg, "\x00") != strings.Join(consumes, "\x00") || strings.Join(prodArg, "\x00") != strings.Join(op.Produces, "\x00")
+	return o
 }
 
 func runCase(m *mon.M, c *Case) {
 	s, err := build(c)
 	if err != nil {
+		if errors.Is(err, errListen) {
+			envExhausted(m, "listen", err)
+			return
+		}
 		m.Class("desc-rejected")
 		return
 	}
-	defer s.srv.Close()
+	defer s.close()
+	var pinned []Call // the earlier calls of the case whose path pattern carried static query parameters
 	for ci := range c.Calls {
 		call := &c.Calls[ci]
 		op := &c.Desc.Ops[call.Op]
-		one := &Case{Desc: c.Desc, Auth: c.Auth, Calls: []Call{*call}}
-		*s.got = received{}
-		s.next = call
-		s.gate, s.gateOnce, s.done = make(chan struct{}), &sync.Once{}, make(chan struct{})
-		sn := &seen{}
-		params := rt.ClientRequestWriterFunc(func(req rt.ClientRequest, _ strfmt.Registry) error {
-			for k, v := range call.Path {
-				_ = req.SetPathParam(k, string(v))
-			}
-			for k, v := range call.Query {
-				_ = req.SetQueryParam(k, mon.SQ(v)...)
-			}
-			for k, v := range call.Header {
-				_ = req.SetHeaderParam(k, string(v))
-			}
-			for k, items := range call.HeaderArr {
-				sep := ","
-				for _, p := range op.Params {
-					if p.Name == k && p.CollectionFormat == "pipes" {
-						sep = "|"
-					}
-				}
-				_ = req.SetHeaderParam(k, strings.Join(mon.SQ(items), sep))
-			}
-			for k, v := range call.Form {
-				_ = req.SetFormParam(k, mon.SQ(v)...)
-			}
-			if call.File2 != "" {
-				_ = req.SetFileParam("upload2", &upFile{name: call.File2, r: bytes.NewReader(fileContent(call.File2Len))})
-			}
-			if call.RawLen > 0 {
-				_ = req.SetBodyParam(io.NopCloser(bytes.NewReader(fileContent(call.RawLen))))
-			}
-			if call.File != "" {
-				if call.FileSkip > 0 {
-					sf := &seekFile{upFile{name: string(call.File), r: bytes.NewReader(fileContent(call.FileLen))}}
-					_, _ = sf.Seek(int64(call.FileSkip), io.SeekStart) // the caller already consumed a local header
-					_ = req.SetFileParam(fileParamName(op), sf)
-				} else {
-					_ = req.SetFileParam(fileParamName(op), &upFile{name: string(call.File), r: bytes.NewReader(fileContent(call.FileLen))})
-				}
-			}
-			if call.Text != "" {
-				_ = req.SetBodyParam(string(call.Text))
-			}
-			if call.Body != nil {
-				b := map[string]string{}
-				for k, v := range call.Body {
-					b[k] = string(v)
-				}
-				if call.BodyAsReader {
-					txt, _ := json.Marshal(b)
-					_ = req.SetBodyParam(strings.NewReader(string(txt)))
-				} else {
-					_ = req.SetBodyParam(b)
-				}
-			}
-			return nil
-		})
-		var auth rt.ClientAuthInfoWriter
-		if c.Auth {
-			auth = client.APIKeyAuth("X-Api-Key", "header", string(call.Key))
-		}
-		if call.Signer {
-			inner := auth
-			auth = rt.ClientAuthInfoWriterFunc(func(req rt.ClientRequest, reg strfmt.Registry) error {
-				_ = req.GetBody() // a signer looks at what will be sent
-				// ... and canonicalises its own copy of the query (GetQueryParams documents a copy)
-				q := req.GetQueryParams()
-				for k := range q {
-					sort.Strings(q[k])
-					for i := range q[k] {
-						q[k][i] = strings.ToLower(q[k][i])
-					}
-				}
-				q.Set("x-signer-scratch", "1")
-				if inner != nil {
-					return inner.AuthenticateRequest(req, reg)
-				}
-				return nil
-			})
-		}
-		reader := rt.ClientResponseReaderFunc(func(resp rt.ClientResponse, cons rt.Consumer) (interface{}, error) {
-			sn.ran++
-			s.openGate() // the caller's reader has been entered: a handler that flushed its head writes the body now
-			sn.code = resp.Code()
-			sn.echo = resp.GetHeader("X-Echo")
-			sn.multi = resp.GetHeaders("X-Multi")
-			sn.ct = resp.GetHeader("Content-Type")
-			sn.cts = append([]string(nil), resp.GetHeaders("Content-Type")...)
-			b, rerr := io.ReadAll(resp.Body())
-			sn.body, sn.readErr = b, rerr
-			switch {
-			case call.RespKind == "error" || bodyless(sn.code) || op.Method == "HEAD" || rerr != nil:
-				// nothing to decode (error document of the API's error responder / no body / body lost)
-			case producesText(op):
-				var str string
-				sn.consErr = cons.Consume(bytes.NewReader(b), &str)
-				sn.value = str
-			case producesOctet(op):
-				var buf bytes.Buffer
-				sn.consErr = cons.Consume(bytes.NewReader(b), &buf)
-				sn.value = buf.String()
-			default:
-				var mv map[string]string
-				sn.consErr = cons.Consume(bytes.NewReader(b), &mv)
-				sn.value = mv["t"]
-			}
-			return nil, nil
-		})
-		consumes := op.Consumes
-		if call.BodyType != "" {
-			consumes = []string{call.BodyType}
-		}
-		cop := &rt.ClientOperation{ID: op.ID, Method: op.Method, PathPattern: op.Template, ConsumesMediaTypes: consumes, ProducesMediaTypes: op.Produces,
-			Params: params, Reader: reader, AuthInfo: auth}
-		var subErr error
-		pv, st := mon.Catch(func() { _, subErr = s.rtm.Submit(cop) })
-		s.openGate() // never leave a handler waiting
-		if call.RespFlush && s.got.ran > 0 {
-			select { // the Responder finishes before its observations are read
-			case <-s.done:
-			case <-time.After(gateTimeout):
-			}
-		}
-		m.Eval(1)
+		one := &Case{Desc: c.Desc, Auth: c.Auth, BaseQuery: c.BaseQuery, Calls: append(append([]Call(nil), pinned...), *call)}
+		// the input class is fixed before the code under test runs
 		feat := c.feature(call)
+		if afterPinned(pinned, call, op) {
+			feat += "+after-pattern-query"
+		}
 		rfeat := respFeature(call, op)
 		if rfeat != "" {
 			feat += "|resp=" + rfeat
@@ -489,72 +738,57 @@ func runCase(m *mon.M, c *Case) {
 			// document it sends "application/x-www-form-urlencoded; boundary=..." when that type is listed first
 			feat = "file-sent-while-urlencoded-is-listed-first"
 		}
+		if call.PreSend != "" {
+			feat = "pre-send:" + call.PreSend
+			m.Class(feat)
+		}
+		for _, f := range strings.Split(strings.SplitN(feat, "|", 2)[0], "+") {
+			switch f {
+			case "pattern-query", "base-path-query", "after-pattern-query", "parameter-name-needs-escaping", "slash-at-the-end-of-template-or-base-path", "literal-needs-escaping":
+				m.Class("shape:" + f)
+			}
+		}
+		if call.FreshRuntime {
+			m.Class("shape:fresh-runtime")
+		}
+		if endsUnusually(call) {
+			m.Class("shape:value-ends-in-space-or-line-break")
+		}
+		o := s.exec(c, call, op)
+		if kind := o.env(); kind != "" {
+			// the loopback plumbing failed: counted, and the call is made once more on a fresh server and transport
+			if resourceKind(kind) {
+				envExhausted(m, kind, o.subErr)
+				continue
+			}
+			m.Class("env:" + kind)
+			s2, err := build(c)
+			if err != nil {
+				envExhausted(m, "listen", err)
+				continue
+			}
+			o = s2.exec(c, call, op)
+			s2.close()
+			switch k2 := o.env(); {
+			case k2 == "":
+				m.Class("env:gone-on-retry")
+			case resourceKind(k2):
+				envExhausted(m, k2, o.subErr)
+				continue
+			default:
+				m.Class("env:shown-again-on-retry") // judged below like any other outcome
+			}
+		}
+		m.Eval(1)
 		if needsEscaping(call) {
 			m.NT(opShape(op) + "|" + callKey(call))
 		}
-		descr := func() string {
-			cb, _ := json.Marshal(call)
-			ob, _ := json.Marshal(op)
-			return fmt.Sprintf("op=%s call=%s -> submitErr=%v handlerRan=%d ranOp=%s bound=%.600v files=%v reader{ran=%d code=%d echo=%q multi=%v ct=%q bodyLen=%d body=%.80q readErr=%v consumeErr=%v} answerLen=%d", ob, cb, subErr, s.got.ran, s.got.op, s.got.bound, s.got.files, sn.ran, sn.code, sn.echo, sn.multi, sn.cts, len(sn.body), sn.body, sn.readErr, sn.consErr, len(respBody(call, op)))
+		if o.edited {
+			m.Class("probe:media-type-list-of-the-operation-edited-by-the-library")
 		}
-		if pv != nil {
-			m.Violate("panic/"+feat, fmt.Sprintf("%v\n%s\n%s", pv, st, descr()), one)
-			continue
-		}
-		if subErr != nil {
-			m.Violate("submit-error/"+feat, descr(), one)
-			continue
-		}
-		if s.got.ran != 1 {
-			m.Violate(fmt.Sprintf("handler-did-not-run-status-%d/%s", sn.code, feat), descr(), one)
-			continue
-		}
-		if s.got.op != op.ID {
-			m.Violate("wrong-operation/"+feat, descr(), one)
-			continue
-		}
-		if bad := compareValues(call, op, s.got); bad != "" {
-			m.Violate("value-differs/"+bad+"/"+feat, bad+" ; "+descr(), one)
-			continue
-		}
-		if s.got.gateTimeout || s.got.noFlusher {
-			m.Class("flush-not-exercised") // watchdog / no Flusher: the flushed shape did not take place; the answer is judged all the same
-		}
-		code := respCode(call, op)
-		wantBody := respBody(call, op)
-		if bodyless(code) {
-			wantBody = ""
-		}
-		switch {
-		case sn.ran != 1:
-			m.Violate(fmt.Sprintf("reader-ran-%d-times/%s", sn.ran, feat), descr(), one)
-		case sn.code != code:
-			m.Violate("response-status-differs/"+feat, descr(), one)
-		case call.RespKind == "error":
-			// the handler returned an error value: its status reached the reader; the document is the error responder's
-			if sn.readErr != nil {
-				m.Violate("response-body-read-error/"+feat, descr(), one)
-			} else {
-				m.Class("agreed-error-status")
-			}
-		case sn.echo != string(call.RespHeader) || strings.Join(sn.multi, ",") != "one,two":
-			m.Violate("response-header-differs/"+feat, descr(), one)
-		case call.RespCT != "" && code != http.StatusNotModified && (sn.ct != string(call.RespCT) || len(sn.cts) != 1 || sn.cts[0] != string(call.RespCT)):
-			m.Violate("response-content-type-differs/"+feat, descr(), one)
-		case sn.readErr != nil:
-			m.Violate("response-body-read-error/"+feat, descr(), one)
-		case op.Method == "HEAD":
-			m.Class("agreed-head") // a HEAD answer carries no body (HTTP): status and headers are what can reach the reader
-		case bodyless(code):
-			if len(sn.body) != 0 {
-				m.Violate("response-body-differs/"+feat, descr(), one)
-			} else {
-				m.Class("agreed")
-			}
-		case sn.consErr != nil || fmt.Sprint(sn.value) != wantBody:
-			m.Violate("response-body-differs/"+feat, descr(), one)
-		default:
-			m.Class("agreed")
+		judge(m, c, call, op, o, feat, one)
+		if len(call.PinQuery) > 0 {
+			pinned = append(pinned, *call)
 		}
 	}
 	if m.WantSample() {
@@ -563,6 +797,133 @@ func runCase(m *mon.M, c *Case) {
 			sc.Calls = sc.Calls[:2]
 		}
 		m.Sample(sc)
+	}
+}
+
+// afterPinned: an earlier call of the case pinned, in its path pattern, a query parameter this operation declares and this call
+// does not supply.
+func afterPinned(pinned []Call, call *Call, op *gen.Op) bool {
+	for i := range pinned {
+		for name := range pinned[i].PinQuery {
+			for _, p := range op.Params {
+				if p.In == "query" && p.Name == name {
+					_, s1 := call.Query[name]
+					_, s2 := call.PinQuery[name]
+					if !s1 && !s2 {
+						return true
+					}
+				}
+			}
+		}
+	}
+	return false
+}
+
+func judge(m *mon.M, c *Case, call *Call, op *gen.Op, o *obs, feat string, one *Case) {
+	sn, got, subErr := o.sn, &o.got, o.subErr
+	descr := func() string {
+		cb, _ := json.Marshal(call)
+		ob, _ := json.Marshal(op)
+		return fmt.Sprintf("op=%s call=%s baseQuery=%v -> submitErr=%v handlerRan=%d ranOp=%s bound=%.600v files=%v reader{ran=%d code=%d msg=%q echo=%q multi=%v ct=%q live=%v bodyLen=%d body=%.80q readErr=%v consumeErr=%v value=%.80q} answerLen=%d", ob, cb, c.BaseQuery, subErr, got.ran, got.op, got.bound, got.files, sn.ran, sn.code, sn.msg, sn.echo, sn.multi, sn.cts, sn.live, len(sn.body), sn.body, sn.readErr, sn.consErr, fmt.Sprint(sn.value), len(respBody(call, op)))
+	}
+	if o.pv != nil {
+		m.Violate("panic/"+feat, fmt.Sprintf("%v\n%s\n%s", o.pv, o.stack, descr()), one)
+		return
+	}
+	switch call.PreSend {
+	case "unproducible-body", "no-producer", "directory-file":
+		// what the caller supplied cannot be sent: no request may invoke the handler in its place, and the caller is told
+		switch {
+		case got.ran > 0:
+			m.Violate("handler-ran-without-the-supplied-value/"+feat, descr(), one)
+		case subErr == nil:
+			m.Violate("no-error-for-a-value-that-cannot-be-sent/"+feat, descr(), one)
+		default:
+			m.Class("agreed-refused-before-send")
+		}
+		return
+	case "body-close-error":
+		// everything was read and only the source's Close failed: the statement leaves open whether the call is made
+		if subErr != nil {
+			if got.ran > 0 {
+				if bad := compareValues(c, call, op, got); bad != "" {
+					m.Violate("value-differs/"+bad+"/"+feat, bad+" ; "+descr(), one)
+					return
+				}
+			}
+			m.Class("agreed-refused-before-send")
+			return
+		}
+	}
+	noCons := expectNoConsumer(call, op)
+	if subErr != nil && !noCons {
+		m.Violate("submit-error/"+feat, descr(), one)
+		return
+	}
+	if got.ran != 1 {
+		m.Violate(fmt.Sprintf("handler-did-not-run-status-%d/%s", sn.code, feat), descr(), one)
+		return
+	}
+	if got.op != op.ID {
+		m.Violate("wrong-operation/"+feat, descr(), one)
+		return
+	}
+	if bad := compareValues(c, call, op, got); bad != "" {
+		m.Violate("value-differs/"+bad+"/"+feat, bad+" ; "+descr(), one)
+		return
+	}
+	if got.gateTimeout || got.noFlusher {
+		m.Class("flush-not-exercised") // watchdog / no Flusher: the flushed shape did not take place; the answer is judged all the same
+	}
+	if noCons {
+		// C13: "otherwise the call fails with an error naming the content type"; the reader has nothing to be handed
+		switch {
+		case sn.ran != 0 || subErr == nil:
+			m.Violate("reader-entered-without-a-consumer/"+feat, descr(), one)
+		case !strings.Contains(strings.ToLower(subErr.Error()), mediaTypeOf(string(call.RespCT))):
+			m.Violate("error-does-not-name-the-content-type/"+feat, descr(), one)
+		default:
+			m.Class("agreed-no-consumer-error")
+		}
+		return
+	}
+	code := respCode(call, op)
+	wantBody := respBody(call, op)
+	if bodyless(code) {
+		wantBody = ""
+	}
+	switch {
+	case sn.ran != 1:
+		m.Violate(fmt.Sprintf("reader-ran-%d-times/%s", sn.ran, feat), descr(), one)
+	case sn.code != code:
+		m.Violate("response-status-differs/"+feat, descr(), one)
+	case !strings.HasPrefix(sn.msg, strconv.Itoa(code)):
+		m.Violate("response-status-message-differs/"+feat, descr(), one)
+	case call.RespKind == "error":
+		// the handler returned an error value: its status reached the reader; the document is the error responder's
+		if sn.readErr != nil {
+			m.Violate("response-body-read-error/"+feat, descr(), one)
+		} else {
+			m.Class("agreed-error-status")
+		}
+	case sn.echo != string(call.RespHeader) || strings.Join(sn.multi, ",") != "one,two":
+		m.Violate("response-header-differs/"+feat, descr(), one)
+	case call.RespCT != "" && code != http.StatusNotModified && (sn.ct != string(call.RespCT) || len(sn.cts) != 1 || sn.cts[0] != string(call.RespCT)):
+		m.Violate("response-content-type-differs/"+feat, descr(), one)
+	case sn.readErr != nil:
+		m.Violate("response-body-read-error/"+feat, descr(), one)
+	case op.Method == "HEAD":
+		m.Class("agreed-head") // a HEAD answer carries no body (HTTP): status and headers are what can reach the reader
+	case bodyless(code):
+		if len(sn.body) != 0 {
+			m.Violate("response-body-differs/"+feat, descr(), one)
+		} else {
+			m.Class("agreed")
+		}
+	case sn.consErr != nil || fmt.Sprint(sn.value) != wantBody:
+		m.Violate("response-body-differs/"+feat, descr(), one)
+	default:
+		m.Class("agreed")
 	}
 }
 
@@ -583,12 +944,13 @@ func isZeroValue(v interface{}) bool {
 }
 
 // unsupplied names the location of a declared parameter the caller left out that reached the handler with a value.
-func unsupplied(call *Call, op *gen.Op, got *received) string {
+func unsupplied(c *Case, call *Call, op *gen.Op, got *received) string {
+	wq := wantQuery(c, call)
 	for _, p := range op.Params {
 		supplied := false
 		switch p.In {
 		case "query":
-			_, supplied = call.Query[p.Name]
+			_, supplied = wq[p.Name]
 		case "header":
 			_, s1 := call.Header[p.Name]
 			_, s2 := call.HeaderArr[p.Name]
@@ -608,7 +970,45 @@ func unsupplied(call *Call, op *gen.Op, got *received) string {
 	return ""
 }
 
-func compareValues(call *Call, op *gen.Op, got *received) string {
+// wantQuery gives, for every query parameter the caller supplies one way or another, the value lists the handler may receive.
+// What the caller sets on the request is what the handler gets; a parameter it does not set has the value written into the
+// operation's path pattern or into the base path (where both carry it the statement does not say which: either is accepted).
+func wantQuery(c *Case, call *Call) map[string][][]mon.Q {
+	w := map[string][][]mon.Q{}
+	for k, v := range c.BaseQuery {
+		w[k] = [][]mon.Q{{v}}
+	}
+	for k, v := range call.PinQuery {
+		w[k] = append(w[k], v)
+	}
+	for k, v := range call.Query {
+		w[k] = [][]mon.Q{v}
+	}
+	return w
+}
+
+// queryDiffers names how the bound value differs from the supplied list ("" = equal).
+func queryDiffers(bound interface{}, v []mon.Q) string {
+	switch g := bound.(type) {
+	case string:
+		if len(v) != 1 || g != string(v[0]) {
+			return "query"
+		}
+	case []string:
+		if strings.Join(g, "\x00") != strings.Join(mon.SQ(v), "\x00") {
+			return "query-array"
+		}
+	case int64:
+		if len(v) != 1 || fmt.Sprint(g) != string(v[0]) {
+			return "query-integer"
+		}
+	default:
+		return "query-type"
+	}
+	return ""
+}
+
+func compareValues(c *Case, call *Call, op *gen.Op, got *received) string {
 	str := func(v interface{}) (string, bool) {
 		s, ok := v.(string)
 		return s, ok
@@ -618,22 +1018,20 @@ func compareValues(call *Call, op *gen.Op, got *received) string {
 			return "path"
 		}
 	}
-	for k, v := range call.Query {
-		switch g := got.bound[k].(type) {
-		case string:
-			if len(v) != 1 || g != string(v[0]) {
-				return "query"
+	wq := wantQuery(c, call)
+	for _, p := range op.Params {
+		alts, ok := wq[p.Name]
+		if !ok || p.In != "query" {
+			continue
+		}
+		bad := ""
+		for _, v := range alts {
+			if bad = queryDiffers(got.bound[p.Name], v); bad == "" {
+				break
 			}
-		case []string:
-			if strings.Join(g, "\x00") != strings.Join(mon.SQ(v), "\x00") {
-				return "query-array"
-			}
-		case int64:
-			if len(v) != 1 || fmt.Sprint(g) != string(v[0]) {
-				return "query-integer"
-			}
-		default:
-			return "query-type"
+		}
+		if bad != "" {
+			return bad
 		}
 	}
 	for k, v := range call.Header {
@@ -715,7 +1113,7 @@ func compareValues(call *Call, op *gen.Op, got *received) string {
 			return "text-body"
 		}
 	}
-	return unsupplied(call, op, got)
+	return unsupplied(c, call, op, got)
 }
 
 func baseName(s string) string {
@@ -733,6 +1131,24 @@ func (c *Case) feature(call *Call) string {
 	}
 	if len(call.Query) > 0 {
 		fs = append(fs, "query")
+	}
+	if len(call.PinQuery) > 0 {
+		fs = append(fs, "pattern-query")
+	}
+	for _, p := range op.Params {
+		if _, ok := c.BaseQuery[p.Name]; ok && p.In == "query" {
+			fs = append(fs, "base-path-query")
+			break
+		}
+	}
+	if nameNeedsEscaping(op) {
+		fs = append(fs, "parameter-name-needs-escaping")
+	}
+	if strings.HasSuffix(op.Template, "/") || strings.HasSuffix(c.Desc.BasePath, "/") && c.Desc.BasePath != "/" {
+		fs = append(fs, "slash-at-the-end-of-template-or-base-path")
+	}
+	if literalNeedsEscaping(op.Template) {
+		fs = append(fs, "literal-needs-escaping")
 	}
 	if len(call.Header) > 0 {
 		fs = append(fs, "header")
@@ -790,6 +1206,39 @@ func nameNeedsQuoting(s string) bool {
 	return false
 }
 
+// names of query and form parameters that hold bytes a URL or a part header must escape (OData, JSON:API, dotted names)
+var hostileNames = []string{"$filter", "page[size]", "filter.name", "a b", "q&a", "x=y", "naïve"}
+
+func nameNeedsEscaping(op *gen.Op) bool {
+	for _, p := range op.Params {
+		if p.In != "query" && p.In != "formData" || p.Type == "file" {
+			continue
+		}
+		for _, h := range hostileNames {
+			if p.Name == h {
+				return true
+			}
+		}
+	}
+	return false
+}
+
+// literalNeedsEscaping: outside its placeholders the template holds a byte that a URL path cannot carry as it is.
+func literalNeedsEscaping(tpl string) bool {
+	depth := 0
+	for i := 0; i < len(tpl); i++ {
+		switch c := tpl[i]; {
+		case c == '{':
+			depth++
+		case c == '}':
+			depth--
+		case depth == 0 && (c <= 0x20 || c >= 0x7f || strings.IndexByte("\"<>\\^`|", c) >= 0):
+			return true
+		}
+	}
+	return false
+}
+
 func formDeclared(op *gen.Op) bool {
 	for _, p := range op.Params {
 		if p.In == "formData" {
@@ -836,6 +1285,34 @@ func needsEscaping(call *Call) bool {
 	return false
 }
 
+// endsUnusually: a query or form value of the call ends in white space or a line break.
+func endsUnusually(call *Call) bool {
+	chk := func(l []mon.Q) bool {
+		for _, v := range l {
+			if s := string(v); s != "" && strings.ContainsRune(" \t\r\n", rune(s[len(s)-1])) {
+				return true
+			}
+		}
+		return false
+	}
+	for _, l := range call.Query {
+		if chk(l) {
+			return true
+		}
+	}
+	for _, l := range call.Form {
+		if chk(l) {
+			return true
+		}
+	}
+	for _, l := range call.PinQuery {
+		if chk(l) {
+			return true
+		}
+	}
+	return false
+}
+
 func opShape(op *gen.Op) string {
 	b, _ := json.Marshal(op)
 	return fmt.Sprintf("%x", mon.Hash64(string(b)))
@@ -848,7 +1325,7 @@ func callKey(c *Call) string {
 
 // ---------- generation ----------
 
-var atoms = []string{"/", "%", "+", " ", "?", "#", ":", "*", "{", "}", ";", "=", "&", "é", "\x00", "\xff", "a", "b", "xyz", "%2F", "%25", "..", ".", "~", "\"", "'", "<", ">", "\\", "|", "^", "`", "[", "]", "@", "!", "$", ",", "(", ")", "\t", "日本", "{id}", "{p0}", "{p1}"}
+var atoms = []string{"/", "%", "+", " ", "?", "#", ":", "*", "{", "}", ";", "=", "&", "é", "\x00", "\xff", "a", "b", "xyz", "%2F", "%25", "..", ".", "~", "\"", "'", "<", ">", "\\", "|", "^", "`", "[", "]", "@", "!", "$", ",", "(", ")", "\t", "日本", "{id}", "{p0}", "{p1}", "\n", "\r\n", "a\n", " "}
 
 func hostile(r *rand.Rand) string {
 	n := 1 + r.Intn(4)
@@ -857,6 +1334,15 @@ func hostile(r *rand.Rand) string {
 		sb.WriteString(atoms[r.Intn(len(atoms))])
 	}
 	return sb.String()
+}
+
+// tail appends the letter to every other value: the last byte of a value is a letter or whatever the value ends in (a space,
+// a line break, a reserved byte), and a value that would be empty gets the letter
+func tail(r *rand.Rand, v, letter string) string {
+	if v == "" || r.Intn(2) == 0 {
+		return v + letter
+	}
+	return v
 }
 
 func pathValue(r *rand.Rand) string {
@@ -894,6 +1380,21 @@ func utf8Value(r *rand.Rand) string {
 
 var methodsWithBody = []string{"POST", "PUT", "PATCH"}
 
+// literal template segments with reserved bytes that a URL path carries unescaped (':' and '*' are left to C01/C05: the trie
+// router gives them a meaning of its own, a known finding there)
+var reservedLiterals = []string{"a+b", "r;v=1", "r$x", "r@x", "r,x", "r=x", "v1.2", "r~x", "r!x", "r'x", "r(x)", "r&x", "r[x]", "a-b_c"}
+
+// NOT GENERATED, by decision: a template with a literal segment holding bytes that a URL path cannot carry as they are (space,
+// non-ASCII, '|', '"'). The client sends the segment percent-encoded ("/caf%C3%A9/ab"); the router compares the still
+// percent-encoded request path with the template text byte for byte ("/café/{p0}"), finds no route and answers 404. C01's
+// statement defines a fitting template on the still percent-encoded path, literal segments byte for byte, so a literal that no
+// encoded path can spell fits no request: such a description is outside the quantifier (RFC 3986 has no such bytes in a path;
+// the same template spelled "/caf%C3%A9/{p0}" is served). The generator, feature and oracle stay in place behind the constant
+// (witness of the observation: reviews/alarms3/C04-template-literal-needs-escaping.json).
+const escapedLiteralTemplates = false
+
+var escapedLiterals = []string{"r 0", "café", "r|x", "r\"x", "日本"}
+
 // TRIAGE-PENDING: operations that consume text/plain with a body of schema {type: string}. On the unchanged tree the
 // untyped binder gives every body parameter a map (or slice) target whatever its schema says, and the schema validation
 // then refuses the bound value ("body in body must be of type string: \"object\"", 422): the handler never runs
@@ -917,6 +1418,9 @@ var fileNames = []string{"a.txt", "dir/b.bin", "sp ace.dat", "é.bin", "a.txt", 
 
 func genDesc(r *rand.Rand) (gen.Desc, bool) {
 	d := gen.Desc{BasePath: []string{"/", "/api", "/a/b"}[r.Intn(3)], Produces: []string{"application/json"}, Consumes: []string{"application/json"}}
+	if r.Intn(10) == 0 {
+		d.BasePath = "/api/" // a base path spelled with a slash at its end
+	}
 	auth := r.Intn(3) == 0
 	if auth {
 		d.SecDefs = map[string]gen.SecDef{"key": {Type: "apiKey", Name: "X-Api-Key", In: "header"}}
@@ -926,6 +1430,12 @@ func genDesc(r *rand.Rand) (gen.Desc, bool) {
 	for i := 0; i < nops; i++ {
 		op := gen.Op{ID: fmt.Sprintf("op%d", i), SuccessCode: []int{200, 200, 201, 202, 200, 201, 204}[r.Intn(7)]}
 		tpl := fmt.Sprintf("/r%d", i)
+		if r.Intn(8) == 0 { // a literal segment holding reserved bytes a URL path may carry as they are
+			tpl += "/" + reservedLiterals[r.Intn(len(reservedLiterals))]
+		}
+		if escapedLiteralTemplates && r.Intn(16) == 0 {
+			tpl += "/" + escapedLiterals[r.Intn(len(escapedLiterals))]
+		}
 		np := r.Intn(3)
 		for k := 0; k < np; k++ {
 			name := fmt.Sprintf("p%d", k)
@@ -938,17 +1448,31 @@ func genDesc(r *rand.Rand) (gen.Desc, bool) {
 		if r.Intn(4) == 0 {
 			tpl += "/tail"
 		}
+		if r.Intn(10) == 0 {
+			tpl += "/" // a template that ends in a slash: the request the client builds ends in one too
+		}
 		op.Template = tpl
 		nq := r.Intn(3)
+		hn := r.Intn(len(hostileNames)) // where this operation starts taking names that need escaping (each at most once)
 		for k := 0; k < nq; k++ {
-			p := gen.Param{Name: fmt.Sprintf("q%d", k), In: "query", Type: "string"}
+			name := fmt.Sprintf("q%d", k)
+			if r.Intn(6) == 0 {
+				name = hostileNames[hn%len(hostileNames)]
+				hn++
+			}
+			p := gen.Param{Name: name, In: "query", Type: "string"}
 			switch r.Intn(5) {
 			case 0:
-				p = gen.Param{Name: fmt.Sprintf("q%d", k), In: "query", Type: "array", ItemsType: "string", CollectionFormat: "multi"}
+				p = gen.Param{Name: name, In: "query", Type: "array", ItemsType: "string", CollectionFormat: "multi"}
 			case 1:
-				p = gen.Param{Name: fmt.Sprintf("q%d", k), In: "query", Type: "integer", Format: "int64"}
+				p = gen.Param{Name: name, In: "query", Type: "integer", Format: "int64"}
 			}
 			op.Params = append(op.Params, p)
+		}
+		f0 := "f0" // the first form field of the operation (when it has a form)
+		if r.Intn(6) == 0 {
+			f0 = hostileNames[hn%len(hostileNames)]
+			hn++
 		}
 		nh := r.Intn(2)
 		for k := 0; k < nh; k++ {
@@ -973,7 +1497,7 @@ func genDesc(r *rand.Rand) (gen.Desc, bool) {
 		case 6: // multipart form with two file parameters
 			op.Method = methodsWithBody[r.Intn(3)]
 			op.Consumes = []string{"multipart/form-data"}
-			op.Params = append(op.Params, gen.Param{Name: "f0", In: "formData", Type: "string"},
+			op.Params = append(op.Params, gen.Param{Name: f0, In: "formData", Type: "string"},
 				gen.Param{Name: "upload", In: "formData", Type: "file"},
 				gen.Param{Name: "upload2", In: "formData", Type: "file"})
 		case 0: // JSON body, on some operations alternatively YAML (the same route sees changing media types)
@@ -987,7 +1511,7 @@ func genDesc(r *rand.Rand) (gen.Desc, bool) {
 		case 1: // urlencoded form
 			op.Method = methodsWithBody[r.Intn(3)]
 			op.Consumes = []string{"application/x-www-form-urlencoded"}
-			op.Params = append(op.Params, gen.Param{Name: "f0", In: "formData", Type: "string"},
+			op.Params = append(op.Params, gen.Param{Name: f0, In: "formData", Type: "string"},
 				gen.Param{Name: "f1", In: "formData", Type: "array", ItemsType: "string", CollectionFormat: "multi"})
 		case 2: // multipart form with a file
 			op.Method = methodsWithBody[r.Intn(3)]
@@ -999,7 +1523,7 @@ func genDesc(r *rand.Rand) (gen.Desc, bool) {
 			if r.Intn(5) == 0 { // a declared name that needs quoting in the part header
 				upName = fileParamNames[r.Intn(len(fileParamNames))]
 			}
-			op.Params = append(op.Params, gen.Param{Name: "f0", In: "formData", Type: "string"},
+			op.Params = append(op.Params, gen.Param{Name: f0, In: "formData", Type: "string"},
 				gen.Param{Name: "f1", In: "formData", Type: "array", ItemsType: "string", CollectionFormat: "multi"},
 				gen.Param{Name: upName, In: "formData", Type: "file"})
 		default:
@@ -1029,7 +1553,16 @@ func genCall(r *rand.Rand, d *gen.Desc, oi int) Call {
 			}
 			c.Path[p.Name] = mon.Q(pathValue(r))
 		case "query":
-			if r.Intn(5) == 0 {
+			if r.Intn(8) == 0 {
+				// the operation's path pattern carries the parameter ("/reports?view=full"); the caller sets it too in 1 call in 2
+				if c.PinQuery == nil {
+					c.PinQuery = map[string][]mon.Q{}
+				}
+				c.PinQuery[p.Name] = pinValue(r, &p)
+				if r.Intn(2) == 0 {
+					continue
+				}
+			} else if r.Intn(5) == 0 {
 				continue
 			}
 			if c.Query == nil {
@@ -1040,16 +1573,16 @@ func genCall(r *rand.Rand, d *gen.Desc, oi int) Call {
 				n := 1 + r.Intn(3)
 				var l []mon.Q
 				for i := 0; i < n; i++ {
-					l = append(l, mon.Q(strings.ReplaceAll(hostile(r), "\x00", "0")+"v"))
+					l = append(l, mon.Q(tail(r, strings.ReplaceAll(hostile(r), "\x00", "0"), "v")))
 				}
 				if n >= 2 && r.Intn(4) == 0 {
 					l[r.Intn(n)] = "" // an empty item between/next to non-empty ones is a value like any other
 				}
 				c.Query[p.Name] = l
 			case p.Type == "integer":
-				c.Query[p.Name] = []mon.Q{mon.Q([]string{"0", "-1", "9223372036854775807", "-9223372036854775808", "42"}[r.Intn(5)])}
+				c.Query[p.Name] = []mon.Q{mon.Q(intValues[r.Intn(len(intValues))])}
 			default:
-				c.Query[p.Name] = []mon.Q{mon.Q(hostile(r) + "q")}
+				c.Query[p.Name] = []mon.Q{mon.Q(tail(r, hostile(r), "q"))}
 			}
 		case "header":
 			if r.Intn(5) == 0 {
@@ -1098,14 +1631,14 @@ func genCall(r *rand.Rand, d *gen.Desc, oi int) Call {
 				n := 1 + r.Intn(3)
 				var l []mon.Q
 				for i := 0; i < n; i++ {
-					l = append(l, mon.Q(hostile(r)+"f"))
+					l = append(l, mon.Q(tail(r, hostile(r), "f")))
 				}
 				if n >= 2 && r.Intn(4) == 0 {
 					l[r.Intn(n)] = ""
 				}
 				c.Form[p.Name] = l
 			} else {
-				c.Form[p.Name] = []mon.Q{mon.Q(hostile(r) + "f")}
+				c.Form[p.Name] = []mon.Q{mon.Q(tail(r, hostile(r), "f"))}
 			}
 		case "body":
 			if len(op.Consumes) > 0 && op.Consumes[0] == octetMime {
@@ -1142,8 +1675,86 @@ func genCall(r *rand.Rand, d *gen.Desc, oi int) Call {
 			}
 		}
 	}
+	c.FreshRuntime = r.Intn(10) == 0
+	c.LiveBody = r.Intn(2) == 0
+	if r.Intn(40) == 0 {
+		genPreSend(r, op, &c)
+	}
 	genAnswer(r, op, &c)
 	return c
+}
+
+var intValues = []string{"0", "-1", "9223372036854775807", "-9223372036854775808", "42"}
+
+// pinValue is a value list a path pattern carries for the query parameter.
+func pinValue(r *rand.Rand, p *gen.Param) []mon.Q {
+	switch p.Type {
+	case "integer":
+		return []mon.Q{mon.Q(intValues[r.Intn(len(intValues))])}
+	case "array":
+		l := []mon.Q{mon.Q(strings.ReplaceAll(hostile(r), "\x00", "0") + "p")}
+		if r.Intn(2) == 0 {
+			l = append(l, mon.Q(tail(r, strings.ReplaceAll(hostile(r), "\x00", "0"), "p")))
+		}
+		return l
+	}
+	return []mon.Q{mon.Q(tail(r, hostile(r), "p"))}
+}
+
+// genPreSend turns the call into one that supplies something which cannot be sent (when the operation has a place for it).
+func genPreSend(r *rand.Rand, op *gen.Op, c *Call) {
+	switch {
+	case c.Body != nil && len(op.Consumes) > 0 && op.Consumes[0] == "application/json":
+		c.PreSend = []string{"unproducible-body", "no-producer"}[r.Intn(2)]
+		c.BodyType, c.BodyAsReader = "", false
+	case c.RawLen > 0:
+		c.PreSend, c.Signer = "body-close-error", true // the auth writer asks for the body: the stream is read and closed before sending
+	case len(op.Consumes) > 0 && op.Consumes[0] == "multipart/form-data":
+		c.PreSend = "directory-file"
+		c.File, c.FileLen, c.FileSkip = "", 0, 0
+	}
+}
+
+// followUp is a call, to an operation that declares a query parameter the call before it had in its path pattern, whose caller
+// does not supply that parameter: whatever was built before, the handler must receive none.
+func followUp(r *rand.Rand, d *gen.Desc, prev *Call) (Call, bool) {
+	type cand struct {
+		op   int
+		name string
+	}
+	var cs []cand
+	names := make([]string, 0, len(prev.PinQuery))
+	for n := range prev.PinQuery {
+		names = append(names, n)
+	}
+	sort.Strings(names)
+	for oi := range d.Ops {
+		for _, p := range d.Ops[oi].Params {
+			for _, n := range names {
+				if p.In == "query" && p.Name == n {
+					cs = append(cs, cand{oi, n})
+				}
+			}
+		}
+	}
+	if len(cs) == 0 {
+		return Call{}, false
+	}
+	pick := cs[r.Intn(len(cs))]
+	c := genCall(r, d, pick.op)
+	for _, n := range names {
+		delete(c.Query, n)
+		delete(c.PinQuery, n)
+	}
+	if len(c.Query) == 0 {
+		c.Query = nil
+	}
+	if len(c.PinQuery) == 0 {
+		c.PinQuery = nil
+	}
+	c.PreSend = ""
+	c.FreshRuntime = r.Intn(2) == 0
+	return c, true
 }
 
 var answerCodes = []int{200, 201, 202, 204, 400, 401, 403, 404, 409, 422, 500, 503, 300, 304, 429}
@@ -1190,6 +1801,12 @@ func genAnswer(r *rand.Rand, op *gen.Op, c *Call) {
 		c.RespLen, c.RespFlush = 0, false
 		return
 	}
+	if r.Intn(16) == 0 {
+		// a media type of the handler's own choosing that the client has no consumer for; in 1 call in 2 it has a catch-all consumer
+		c.RespCT = mon.Q(alienTypes[r.Intn(len(alienTypes))])
+		c.AnyConsumer = r.Intn(2) == 0
+		return
+	}
 	if r.Intn(8) == 0 {
 		switch {
 		case producesText(op):
@@ -1209,8 +1826,29 @@ func run(m *mon.M) {
 	for i := 0; i < nd; i++ {
 		d, auth := genDesc(r)
 		c := &Case{Desc: d, Auth: auth}
+		if r.Intn(12) == 0 {
+			// the base path the transport is configured with carries a query parameter some operation declares
+			var names []string
+			for _, op := range d.Ops {
+				for _, p := range op.Params {
+					if p.In == "query" {
+						names = append(names, p.Name)
+					}
+				}
+			}
+			if len(names) > 0 {
+				c.BaseQuery = map[string]mon.Q{names[r.Intn(len(names))]: mon.Q([]string{"17", "0", "-3"}[r.Intn(3)])}
+			}
+		}
 		for k := 0; k < per; k++ {
-			c.Calls = append(c.Calls, genCall(r, &d, r.Intn(len(d.Ops))))
+			call := genCall(r, &d, r.Intn(len(d.Ops)))
+			c.Calls = append(c.Calls, call)
+			if len(call.PinQuery) > 0 && k+1 < per {
+				if f, ok := followUp(r, &d, &call); ok {
+					c.Calls = append(c.Calls, f)
+					k++
+				}
+			}
 		}
 		m.Begin(c)
 		runCase(m, c)
